@@ -390,3 +390,115 @@ func c17EditRegions(r *an.Run) {
 	}
 	r.Check(good, short(g)+"|classification", g.Pos(), "a comment group counts as leading exactly when it ends at or before the node's start and as trailing exactly when it starts at or after the node's end — nothing else (the region under consideration, the kind of node) decides it (%d paths)", len(paths))
 }
+
+// emptiedGroupsAreDropped (C08-R13, after F14): the clean-up step removes the
+// comments inside rewritten regions and can leave a comment group without any
+// comment. go/ast and astutil call Pos()/End() on the groups of File.Comments
+// (List[0], List[len-1]) — on an empty group that is an index out of range,
+// reached as soon as a later change of the same run edits the imports. So the
+// step must hand back the list without the emptied groups and its callers must
+// store that list into the file.
+func emptiedGroupsAreDropped(r *an.Run, rule string) {
+	r.Rule(rule)
+	n := 0
+	for _, cf := range cleanupFuncs(r) {
+		// does it shorten comment lists at all?
+		shortens := false
+		for _, g := range helperGroup(cf, 2) {
+			for _, in := range an.StoresIn(g) {
+				if st, ok := in.(*ssa.Store); ok {
+					if fa, ok := st.Addr.(*ssa.FieldAddr); ok && an.IsNamed(fa.X.Type(), "go/ast", "CommentGroup") && fieldNameOf(fa) == "List" {
+						shortens = true
+					}
+				}
+			}
+		}
+		if !shortens {
+			continue
+		}
+		n++
+		res := cf.Signature.Results()
+		if !r.Check(res.Len() == 1 && isCommentGroupList(res.At(0).Type()), short(cf)+"|returns-kept-groups", cf.Pos(), "%s, which can remove every comment of a group, hands back the groups that are left", short(cf)) {
+			continue
+		}
+		// every group that is kept was tested to be non-empty
+		good, napp := true, 0
+		for _, ret := range an.Returns(cf) {
+			for v := range an.BackSlice(ret.Results[0], an.SliceOpts{}) {
+				app, ok := v.(*ssa.Call)
+				if !ok || !an.IsCallTo(app, "builtin:append") || !isCommentGroupList(app.Type()) {
+					continue
+				}
+				napp++
+				for _, e := range appendedElements(app) {
+					var nonEmpty []an.CtrlEdge
+					for _, b := range cf.Blocks {
+						iff, ok := b.Instrs[len(b.Instrs)-1].(*ssa.If)
+						if !ok {
+							continue
+						}
+						cond, pos := an.StripNot(iff.Cond)
+						cmp, ok := cond.(*ssa.BinOp)
+						if !ok {
+							continue
+						}
+						lc, ok := cmp.X.(*ssa.Call)
+						if !ok || !an.IsCallTo(lc, "builtin:len") {
+							continue
+						}
+						ld, ok := lc.Call.Args[0].(*ssa.UnOp)
+						if !ok {
+							continue
+						}
+						fa, ok := ld.X.(*ssa.FieldAddr)
+						if !ok || fieldNameOf(fa) != "List" || fa.X != e {
+							continue
+						}
+						k, isc := an.ConstInt(cmp.Y)
+						if !isc {
+							continue
+						}
+						succ := -1
+						switch {
+						case cmp.Op.String() == ">" && k == 0, cmp.Op.String() == "!=" && k == 0, cmp.Op.String() == ">=" && k == 1:
+							succ = 0
+						case cmp.Op.String() == "==" && k == 0, cmp.Op.String() == "<" && k == 1, cmp.Op.String() == "<=" && k == 0:
+							succ = 1
+						}
+						if succ < 0 {
+							continue
+						}
+						if !pos {
+							succ = 1 - succ
+						}
+						nonEmpty = append(nonEmpty, an.CtrlEdge{Block: b, Succ: succ})
+					}
+					if len(nonEmpty) == 0 || !unreachableWithout(app.Block(), nonEmpty) {
+						good = false
+					}
+				}
+			}
+		}
+		r.Check(good && napp > 0, short(cf)+"|keeps-only-non-empty-groups", cf.Pos(), "a group is kept only behind a len(cg.List) > 0 test: no group without comments stays in the file's list")
+		// and the callers put that list into the file
+		for _, c := range r.P.CallersOf(cf) {
+			call, ok := c.(*ssa.Call)
+			if !ok {
+				continue
+			}
+			stored := false
+			if call.Referrers() != nil {
+				for _, u := range *call.Referrers() {
+					if st, ok := u.(*ssa.Store); ok && st.Val == ssa.Value(call) {
+						if fa, ok := st.Addr.(*ssa.FieldAddr); ok && fieldNameOf(fa) == "Comments" && an.IsNamed(fa.X.Type(), "go/ast", "File") {
+							stored = filteredOwnComments(r, call, fa.X) == ""
+						}
+					}
+				}
+			}
+			r.Check(stored, short(call.Parent())+"|stores-kept-groups", call.Pos(), "%s stores the list the clean-up step returned into the Comments of the file it came from", short(call.Parent()))
+		}
+	}
+	r.Count("clean-up steps that shorten comment lists", n)
+	r.Min("clean-up steps that shorten comment lists", 1)
+}
